@@ -1,5 +1,7 @@
 package c09
 
+import "github.com/ohler55/slip"
+
 // The fixed pool of representative objects of the property's quantifier.
 //
 // Every pool entry is a slip source expression that is evaluated afresh for
@@ -17,80 +19,105 @@ type poolObj struct {
 	Class string
 	Src   string
 	Form  bool
+	// Make builds objects that have no source text (invalid UTF-8, NUL,
+	// 10 000-deep nesting, symbols of unknown packages); Src is then only
+	// the rendering used in messages.
+	Make func() slip.Object
 }
 
 const (
 	big62  = "4611686018427387904"    // 2^62, a fixnum
 	big70  = "1180591620717411303424" // 2^70, a bignum
+	big40  = "1099511627776"          // 2^40
 	minFix = "-9223372036854775808"   // most negative fixnum
 )
 
 var pool = []poolObj{
-	{"nil", "null", "nil", false},
-	{"t", "t", "t", false},
-	{"zero", "zero", "0", false},
-	{"one", "posint", "1", false},
-	{"three", "posint", "3", false},
-	{"neg1", "negint", "-1", false},
-	{"big62", "hugefix", big62, false},
-	{"minfix", "minfix", minFix, false},
-	{"big70", "bignum", big70, false},
-	{"ratio", "ratio", "1/2", false},
-	{"double", "float", "1.5", false},
-	{"single", "float", "2.5f0", false},
-	{"long", "longfloat", "1.5L0", false},
-	{"complex", "complex", "#C(1 2)", false},
-	{"str", "string", `"abc"`, false},
-	{"empty-str", "emptystring", `""`, false},
-	{"tilde-str", "string", `"~a ~d"`, false},
-	{"sym", "symbol", "'foo", false},
-	{"fsym", "symbol", "'c09-fn", false},
-	{"vsym", "symbol", "'c09-var", false},
-	{"keyword", "keyword", ":start", false}, // not :test - that designates the package named test
-	{"char", "character", `#\a`, false},
-	{"list3", "list", "'(1 2 3)", false},
-	{"list1", "list", "'(a)", false},
-	{"dotted", "dotted", "'(1 . 2)", false},
-	{"dotted3", "dotted", "'(1 2 . 3)", false},
-	{"alist", "list", "'((a . 1) (b . 2))", false},
-	{"plist", "list", "'(:a 1 :b 2)", false},
-	{"nested", "list", "'((1 2) (3 4))", false},
-	{"form", "list", "'(+ 1 2)", false},
-	{"lambda-expr", "list", "'(lambda (x) x)", false},
-	{"vector", "vector", "(vector 1 2 3)", false},
-	{"empty-vec", "emptyvector", "(vector)", false},
-	{"fp-vec", "vector", "(make-array 4 :fill-pointer 2 :adjustable t)", false},
-	{"array2d", "array", "(make-array '(2 2) :initial-element 0)", false},
-	{"octets", "octets", `(string-to-octets "abc")`, false},
-	{"bitvec", "bit-vector", "#*1011", false},
-	{"hash", "hash-table", "(let ((h (make-hash-table))) (setf (gethash 'a h) 1) h)", false},
-	{"in-stream", "stream", `(make-string-input-stream "abc def")`, false},
-	{"out-stream", "stream", "(make-string-output-stream)", false},
-	{"closed-stream", "closedstream", `(let ((s (make-string-input-stream "x"))) (close s) s)`, false},
-	{"package", "package", "(or (find-package 'c09-scratch) (make-package 'c09-scratch))", false},
-	{"class", "class", "(find-class 'c09-class)", false},
-	{"flavor", "flavor", "(find-flavor 'c09-flavor)", false},
-	{"flavor-inst", "instance", "(make-instance 'c09-flavor)", false},
-	{"clos-inst", "instance", "(make-instance 'c09-class)", false},
-	{"condition", "condition", "(make-condition 'type-error :datum 1 :expected-type 'string)", false},
-	{"lambda", "function", "(lambda (&rest args) args)", false},
-	{"builtin", "function", "#'car", false},
-	{"channel", "channel", "(let ((c (make-channel 4))) (channel-push c 1) (channel-push c 2) c)", false},
-	{"mutex", "instance", "(make-mutex)", false},
-	{"time", "time", "(make-time 2024 1 2 3 4 5)", false},
-	{"bag", "instance", `(make-bag "{a:1 b:[1 2]}")`, false},
-	{"bag-path", "bag-path", `(make-bag-path "a.b")`, false},
-	{"random-state", "random-state", "(make-random-state)", false},
-	{"struct", "instance", "(make-c09-struct :a 1)", false},
-	{"values0", "values0", "(values)", true},
-	{"values2", "values2", "(values 1 2)", true},
+	{"nil", "null", "nil", false, nil},
+	{"t", "t", "t", false, nil},
+	{"zero", "zero", "0", false, nil},
+	{"one", "posint", "1", false, nil},
+	{"three", "posint", "3", false, nil},
+	{"neg1", "negint", "-1", false, nil},
+	{"big62", "hugefix", big62, false, nil},
+	{"minfix", "minfix", minFix, false, nil},
+	{"big70", "bignum", big70, false, nil},
+	{"ratio", "ratio", "1/2", false, nil},
+	{"double", "float", "1.5", false, nil},
+	{"single", "float", "2.5f0", false, nil},
+	{"long", "longfloat", "1.5L0", false, nil},
+	{"complex", "complex", "#C(1 2)", false, nil},
+	{"str", "string", `"abc"`, false, nil},
+	{"empty-str", "emptystring", `""`, false, nil},
+	{"tilde-str", "string", `"~a ~d"`, false, nil},
+	{"sym", "symbol", "'foo", false, nil},
+	{"fsym", "symbol", "'c09-fn", false, nil},
+	{"vsym", "symbol", "'c09-var", false, nil},
+	{"keyword", "keyword", ":start", false, nil}, // not :test - that designates the package named test
+	{"char", "character", `#\a`, false, nil},
+	{"list3", "list", "'(1 2 3)", false, nil},
+	{"list1", "list", "'(a)", false, nil},
+	{"dotted", "dotted", "'(1 . 2)", false, nil},
+	{"dotted3", "dotted", "'(1 2 . 3)", false, nil},
+	{"alist", "list", "'((a . 1) (b . 2))", false, nil},
+	{"plist", "list", "'(:a 1 :b 2)", false, nil},
+	{"nested", "list", "'((1 2) (3 4))", false, nil},
+	{"form", "list", "'(+ 1 2)", false, nil},
+	{"lambda-expr", "list", "'(lambda (x) x)", false, nil},
+	{"vector", "vector", "(vector 1 2 3)", false, nil},
+	{"empty-vec", "emptyvector", "(vector)", false, nil},
+	{"fp-vec", "vector", "(make-array 4 :fill-pointer 2 :adjustable t)", false, nil},
+	{"array2d", "array", "(make-array '(2 2) :initial-element 0)", false, nil},
+	{"octets", "octets", `(string-to-octets "abc")`, false, nil},
+	{"bitvec", "bit-vector", "#*1011", false, nil},
+	{"hash", "hash-table", "(let ((h (make-hash-table))) (setf (gethash 'a h) 1) h)", false, nil},
+	{"in-stream", "stream", `(make-string-input-stream "abc def")`, false, nil},
+	{"out-stream", "stream", "(make-string-output-stream)", false, nil},
+	{"closed-stream", "closedstream", `(let ((s (make-string-input-stream "x"))) (close s) s)`, false, nil},
+	{"package", "package", "(or (find-package 'c09-scratch) (make-package 'c09-scratch))", false, nil},
+	{"class", "class", "(find-class 'c09-class)", false, nil},
+	{"flavor", "flavor", "(find-flavor 'c09-flavor)", false, nil},
+	{"flavor-inst", "instance", "(make-instance 'c09-flavor)", false, nil},
+	{"clos-inst", "instance", "(make-instance 'c09-class)", false, nil},
+	{"condition", "condition", "(make-condition 'type-error :datum 1 :expected-type 'string)", false, nil},
+	{"lambda", "function", "(lambda (&rest args) args)", false, nil},
+	{"builtin", "function", "#'car", false, nil},
+	{"channel", "channel", "(let ((c (make-channel 4))) (channel-push c 1) (channel-push c 2) c)", false, nil},
+	{"mutex", "instance", "(make-mutex)", false, nil},
+	{"time", "time", "(make-time 2024 1 2 3 4 5)", false, nil},
+	{"bag", "instance", `(make-bag "{a:1 b:[1 2]}")`, false, nil},
+	{"bag-path", "bag-path", `(make-bag-path "a.b")`, false, nil},
+	{"random-state", "random-state", "(make-random-state)", false, nil},
+	{"struct", "instance", "(make-c09-struct :a 1)", false, nil},
+	// round 2: hostile vectors
+	{Name: "big40", Class: "big40", Src: big40}, // a count no allocation can satisfy but makeslice accepts
+	{Name: "bad-utf8", Class: "badstring", Src: `"\xff\xfeab\xc3"`, Make: func() slip.Object { return slip.String("\xff\xfeab\xc3") }},
+	{Name: "nul-str", Class: "nulstring", Src: `"a\x00b"`, Make: func() slip.Object { return slip.String("a\x00b") }},
+	{Name: "deep-list", Class: "deeplist", Src: "'((((...10000 deep...))))", Make: deepList},
+	{Name: "closed-channel", Class: "closedchannel", Src: "(let ((c (make-channel 2))) (channel-push c 1) (channel-close c) c)"},
+	{Name: "closed-out-stream", Class: "closedstream", Src: "(let ((s (make-string-output-stream))) (close s) s)"},
+	{Name: "unk-pkg-sym", Class: "pkgsymbol", Src: "'nosuchpkg:foo", Make: func() slip.Object { return slip.Symbol("nosuchpkg:foo") }},
+	{Name: "colon-sym", Class: "pkgsymbol", Src: "'|a:b:c|", Make: func() slip.Object { return slip.Symbol("a:b:c") }},
+	{"values0", "values0", "(values)", true, nil},
+	{"values2", "values2", "(values 1 2)", true, nil},
 }
 
 // smallPool: the reduced pool for the exhaustive 3-tuple block.
 var smallPool = []string{"nil", "zero", "neg1", "big62", "str", "sym", "keyword", "list3", "dotted", "vector", "hash", "lambda", "in-stream", "values0"}
 
 // quickPool: the quick tier walks every pair of these for every function.
-var quickPool = []string{"nil", "zero", "three", "neg1", "big62", "double", "str", "sym", "keyword", "char", "list3", "list1", "dotted", "vector", "hash", "lambda", "in-stream"}
+var quickPool = []string{"nil", "zero", "three", "neg1", "big62", "big40", "bad-utf8", "deep-list", "double", "str", "sym", "keyword", "char", "list3", "list1", "dotted", "vector", "hash", "lambda", "in-stream"}
+
+const deepDepth = 10000
+
+// deepList nests a one-element list deepDepth times: ((((...(x)...)))).
+func deepList() slip.Object {
+	var obj slip.Object = slip.List{slip.Symbol("x")}
+	for i := 1; i < deepDepth; i++ {
+		obj = slip.List{obj}
+	}
+	return obj
+}
 
 var poolIndex = map[string]*poolObj{}
 
